@@ -32,6 +32,7 @@ THEOREMS_COUNTS = [
     "Scc.Props.C11.C11_no_erase_of_kept",
     "Scc.Props.C11.C11_share_ops",
     "Scc.Props.C11.C11_counts_balance",
+    "Scc.Props.C11.C11_new_variable_holds",
 ]
 
 X86_REGS = ["rsp", "rcx", "rbx", "rbp", "rax", "rdx", "rsi", "rdi", "r8", "r9", "r10", "r11", "r12", "r13", "r14", "r15"]
